@@ -814,7 +814,7 @@ func (o *FilterOptimizer) intersectionPrefixAndRange(prefix, srange *ScanType) *
 
 	if inRange(rstart, rend, pstart, false) {
 		// | RS | PS | RE | ...
-		if bytes.HasPrefix(rend, pstart) {
+		if rend != nil && bytes.HasPrefix(rend, pstart) {
 			// | RS | PS | RE | PE |
 			if bytes.Equal(pstart, rend) {
 				return &ScanType{MGET, [][]byte{pstart}}
